@@ -1406,3 +1406,419 @@ Proof.
   - cbn. apply nth_error_update_nth. exact E.
   - reflexivity.
 Qed.
+
+(** (d) descriptor calls *)
+
+(** does the call draw a fresh id? *)
+Definition takes_fresh (d : descriptor) (e : env) : bool :=
+  match d_rid d with
+  | RidFresh => true
+  | RidOptParamElseFresh p => match assoc p e with Some (AOptW None) => true | _ => false end
+  | _ => false
+  end.
+
+(** the result id the built instruction carries *)
+Definition rid_of (d : descriptor) (s : bstate) (e : env) : option (option N) :=
+  match d_rid d with
+  | RidNone | RidConstNone => Some None
+  | RidFresh => Some (Some (bs_next s))
+  | RidOptParam p => match assoc p e with Some (AOptW v) => Some v | _ => None end
+  | RidOptParamElseFresh p =>
+      match assoc p e with
+      | Some (AOptW (Some v)) => Some (Some v)
+      | Some (AOptW None) => Some (Some (bs_next s))
+      | _ => None
+      end
+  end.
+
+(** the instruction a (non-dedup) descriptor call builds, recomputed *)
+Definition built_inst (d : descriptor) (s : bstate) (e : env) : option inst :=
+  match call_parts d e, rid_of d s e with
+  | Some (rt, ops), Some rid => Some (mk_inst (d_opcode d) rt rid ops)
+  | _, _ => None
+  end.
+
+Lemma idr_of_rid d s e idv s1 :
+  idr_of d s e = Some (Some (idv, s1)) ->
+  rid_of d s e = Some idv /\
+  (if takes_fresh d e then s1 = bump s /\ bs_next s + 1 < w32 else s1 = s).
+Proof.
+  unfold idr_of, rid_of, takes_fresh. intros H.
+  destruct (d_rid d) as [| |q|q|].
+  - inversion H; auto.
+  - destruct (take_id s) as [[id s2]|] eqn:T; [|discriminate].
+    apply take_id_some in T as [-> [-> T]]. inversion H; subst. auto.
+  - destruct (assoc q e) as [[]|]; try discriminate. inversion H; auto.
+  - destruct (assoc q e) as [[]|]; try discriminate. destruct v as [v|].
+    + inversion H; auto.
+    + destruct (take_id s) as [[id s2]|] eqn:T; [|discriminate].
+      apply take_id_some in T as [-> [-> T]]. inversion H; subst. auto.
+  - inversion H; auto.
+Qed.
+
+Definition section_list (m : module inst) (sec : N) : list inst :=
+  match sec with
+  | 0 => m_caps inst m | 1 => m_exts inst m | 2 => m_imports inst m
+  | 4 => m_entry_points inst m | 5 => m_exec_modes inst m | 6 => m_debug_string_source inst m
+  | 7 => m_debug_names inst m | 8 => m_debug_module_processed inst m | 9 => m_annotations inst m
+  | 10 => m_types_global_values inst m
+  | _ => []
+  end.
+
+Lemma push_section_spec m sec i m' :
+  push_section m sec i = Some m' -> section_list m' sec = section_list m sec ++ [i].
+Proof.
+  intros H.
+  destruct sec as [|p]; [|do 4 (try destruct p as [p|p|])]; try discriminate H;
+    inversion H; subst; reflexivity.
+Qed.
+
+Definition blk_insts (s : bstate) (f b : nat) : option (list inst) :=
+  match nth_error (m_functions inst (bs_module s)) f with
+  | Some fn => match nth_error (f_blocks inst fn) b with
+               | Some blk => Some (b_insts inst blk)
+               | None => None
+               end
+  | None => None
+  end.
+
+(** the selected block received [i] at point [p] *)
+Definition block_received (s s' : bstate) (p : ipoint) (i : inst) : Prop :=
+  exists f b is0 is1, bs_fn s = Some f /\ bs_blk s = Some b /\
+    blk_insts s f b = Some is0 /\ place p i is0 = Some is1 /\ blk_insts s' f b = Some is1.
+
+Lemma insert_into_block_spec s p i s' o :
+  insert_into_block s p i = (s', o) ->
+  (o = BUnit /\ block_received s s' p i /\ bs_fn s' = bs_fn s /\ bs_blk s' = bs_blk s) \/
+  (failed o /\ s' = s).
+Proof.
+  unfold insert_into_block, block_received, blk_insts. intros H.
+  destruct (bs_fn s) as [f|] eqn:Efn; [|inversion H; subst; right; split; [exact I|reflexivity]].
+  destruct (bs_blk s) as [b|] eqn:Ebk; [|inversion H; subst; right; split; [exact I|reflexivity]].
+  destruct (nth_error (m_functions inst (bs_module s)) f) as [fn|] eqn:Ef;
+    [|inversion H; subst; right; split; [exact I|reflexivity]].
+  destruct (nth_error (f_blocks inst fn) b) as [blk|] eqn:Eb;
+    [|inversion H; subst; right; split; [exact I|reflexivity]].
+  destruct (place p i (b_insts inst blk)) as [is'|] eqn:Ep;
+    [|inversion H; subst; right; split; [exact I|reflexivity]].
+  inversion H; subst. left. split; [reflexivity|].
+  split; [|split; [exact Efn|exact Ebk]].
+  exists f, b, (b_insts inst blk), is'.
+  split; [reflexivity|]. split; [reflexivity|].
+  split; [rewrite Ef, Eb; reflexivity|]. split; [exact Ep|].
+  cbn [with_mod bs_module set_functions m_functions].
+  rewrite (nth_error_update_nth _ _ _ _ Ef). cbn [f_blocks].
+  rewrite (nth_error_update_nth _ _ _ _ Eb). reflexivity.
+Qed.
+
+Lemma insert_end_block_spec s p i s' o :
+  insert_end_block s p i = (s', o) ->
+  (o = BUnit /\ block_received s s' p i /\ bs_blk s' = None) \/ (failed o /\ s' = s).
+Proof.
+  unfold insert_end_block. intros H.
+  destruct (bs_blk s) as [b|] eqn:Eb; [|inversion H; subst; right; split; [exact I|reflexivity]].
+  destruct (insert_into_block s p i) as [s1 o1] eqn:E.
+  apply insert_into_block_spec in E as [[-> [R _]]|[F ->]].
+  - inversion H; subst. left. split; [reflexivity|]. split; [|reflexivity].
+    destruct R as [f [b' [is0 [is1 R]]]]. exists f, b', is0, is1. exact R.
+  - right. destruct o1; try destruct F; inversion H; subst; split; try exact I; reflexivity.
+Qed.
+
+(** what "the sink received [i]" means, per sink *)
+Definition received (d : descriptor) (e : env) (s s' : bstate) (i : inst) : Prop :=
+  match d_sink d with
+  | SSection sec => section_list (bs_module s') sec = section_list (bs_module s) sec ++ [i]
+  | SMemoryModel => m_memory_model inst (bs_module s') = Some i
+  | SBlock pt => exists p, point_of e pt = Some p /\ block_received s s' p i
+  | SEndBlock pt => exists p, point_of e pt = Some p /\ block_received s s' p i /\ bs_blk s' = None
+  | SBlockElseGlobal =>
+      match bs_fn s, bs_blk s with
+      | Some _, Some _ => block_received s s' IEnd i
+      | _, _ => types s' = types s ++ [i]
+      end
+  | SLineRule =>
+      match bs_blk s with
+      | Some _ => block_received s s' IEnd i
+      | None => types s' = types s ++ [i]
+      end
+  | SDedupType => False
+  end.
+
+Lemma received_bump d e s s' i : received d e (bump s) s' i -> received d e s s' i.
+Proof. unfold received. destruct (d_sink d); intros H; exact H. Qed.
+
+Lemma ret_val_BVal r idv v : ret_val r idv = BVal v -> idv = Some v.
+Proof. unfold ret_val. destruct r, idv; intros H; inversion H; reflexivity. Qed.
+
+Lemma sink_run_received d e s1 i idv s' o :
+  sink_run d e s1 i idv = Some (s', o) -> ~ failed o ->
+  received d e s1 s' i /\ (forall v, o = BVal v -> idv = Some v).
+Proof.
+  unfold sink_run, received. intros H Hf.
+  destruct (d_sink d) as [sec| |pt|pt| | |].
+  - destruct (push_section (bs_module s1) sec i) as [m|] eqn:P; [|discriminate].
+    inversion H; subst. split; [apply push_section_spec; exact P|apply ret_val_BVal].
+  - inversion H; subst. split; [reflexivity|discriminate].
+  - destruct (point_of e pt) as [p|]; [|discriminate].
+    destruct (insert_into_block s1 p i) as [s2 o2] eqn:E.
+    apply insert_into_block_spec in E as [[-> [R _]]|[F ->]].
+    + inversion H; subst. split; [exists p; auto|apply ret_val_BVal].
+    + exfalso. apply Hf. destruct o2; try destruct F; inversion H; subst; exact I.
+  - destruct (point_of e pt) as [p|]; [|discriminate].
+    inversion H as [E]. apply insert_end_block_spec in E as [[-> [R B]]|[F _]].
+    + split; [exists p; auto|discriminate].
+    + contradiction.
+  - discriminate.
+  - destruct (bs_fn s1) as [f|].
+    + destruct (bs_blk s1) as [b|].
+      * destruct (insert_into_block s1 IEnd i) as [s2 o2] eqn:E.
+        apply insert_into_block_spec in E as [[-> [R _]]|[F ->]].
+        -- inversion H; subst. split; [exact R|apply ret_val_BVal].
+        -- exfalso. apply Hf. destruct o2; try destruct F; inversion H; subst; exact I.
+      * rewrite push_section_10 in H. inversion H; subst. split; [reflexivity|apply ret_val_BVal].
+    + rewrite push_section_10 in H. inversion H; subst. split; [reflexivity|apply ret_val_BVal].
+  - destruct (bs_blk s1) as [b|].
+    + destruct (insert_into_block s1 IEnd i) as [s2 o2] eqn:E.
+      apply insert_into_block_spec in E as [[-> [R _]]|[F ->]].
+      * inversion H; subst. split; [exact R|discriminate].
+      * exfalso. apply Hf. destruct o2; try destruct F; inversion H; subst; exact I.
+    + rewrite push_section_10 in H. inversion H; subst. split; [reflexivity|discriminate].
+Qed.
+
+(** the general statement: a successful non-dedup descriptor call builds
+    [built_inst d s e], hands it to its sink, returns its result id (when it
+    returns an id at all) and allocates exactly when it draws a fresh id *)
+Theorem descriptor_call_spec d s e s' o :
+  d_sink d <> SDedupType -> run_descriptor d s e = Some (s', o) -> ~ failed o ->
+  exists i, built_inst d s e = Some i /\ received d e s s' i /\
+            (forall v, o = BVal v -> i_rid i = Some v) /\
+            alloc s s' = (if takes_fresh d e then [bs_next s] else []).
+Proof.
+  intros Hs H Hf. rewrite (run_descriptor_plain d s e Hs) in H.
+  unfold built_inst, call_parts.
+  destruct (all_operands e (d_slots d)) as [ops|]; [|discriminate].
+  destruct (rt_of d e) as [rtv|]; [|discriminate].
+  destruct (idr_of d s e) as [[[idv s1]|]|] eqn:I; [| |discriminate].
+  - apply idr_of_rid in I as [Hr Hfresh]. rewrite Hr.
+    eexists. split; [reflexivity|].
+    pose proof (sink_run_frame _ _ _ _ _ _ _ H) as [Hn _].
+    apply sink_run_received in H as [R V]; [|exact Hf].
+    destruct (takes_fresh d e).
+    + destruct Hfresh as [-> Hlt]. split; [apply received_bump; exact R|]. split; [exact V|].
+      apply alloc_bump. exact Hn.
+    + subst s1. split; [exact R|]. split; [exact V|]. apply alloc_same. exact Hn.
+  - inversion H; subst. exfalso. apply Hf. exact Logic.I.
+Qed.
+
+(** fresh id: RidFresh, or RidOptParamElseFresh with the argument None *)
+Definition fresh_request (d : descriptor) (e : env) : Prop :=
+  d_rid d = RidFresh \/ exists p, d_rid d = RidOptParamElseFresh p /\ assoc p e = Some (AOptW None).
+
+(** explicit id [x] *)
+Definition explicit_request (d : descriptor) (e : env) (x : N) : Prop :=
+  exists p, (d_rid d = RidOptParam p \/ d_rid d = RidOptParamElseFresh p) /\
+            assoc p e = Some (AOptW (Some x)).
+
+Theorem descriptor_fresh_id d s e s' o :
+  d_sink d <> SDedupType -> fresh_request d e ->
+  run_descriptor d s e = Some (s', o) -> ~ failed o ->
+  exists i, built_inst d s e = Some i /\ i_rid i = Some (bs_next s) /\
+            received d e s s' i /\ alloc s s' = [bs_next s] /\
+            (forall v, o = BVal v -> v = bs_next s).
+Proof.
+  intros Hs Hr H Hf. destruct (descriptor_call_spec _ _ _ _ _ Hs H Hf) as [i [B [R [V A]]]].
+  assert (takes_fresh d e = true /\ rid_of d s e = Some (Some (bs_next s))) as [Ht Hrid].
+  { unfold takes_fresh, rid_of. destruct Hr as [->|[p [-> ->]]]; auto. }
+  rewrite Ht in A. exists i. split; [exact B|].
+  assert (i_rid i = Some (bs_next s)) as Hi.
+  { unfold built_inst in B. rewrite Hrid in B.
+    destruct (call_parts d e) as [[rt ops]|]; [|discriminate]. inversion B; subst. reflexivity. }
+  split; [exact Hi|]. split; [exact R|]. split; [exact A|].
+  intros v Ev. specialize (V v Ev). congruence.
+Qed.
+
+Theorem descriptor_explicit_id d s e s' o x :
+  d_sink d <> SDedupType -> explicit_request d e x ->
+  run_descriptor d s e = Some (s', o) -> ~ failed o ->
+  exists i, built_inst d s e = Some i /\ i_rid i = Some x /\
+            received d e s s' i /\ alloc s s' = [] /\
+            (forall v, o = BVal v -> v = x).
+Proof.
+  intros Hs Hr H Hf. destruct (descriptor_call_spec _ _ _ _ _ Hs H Hf) as [i [B [R [V A]]]].
+  assert (takes_fresh d e = false /\ rid_of d s e = Some (Some x)) as [Ht Hrid].
+  { unfold takes_fresh, rid_of. destruct Hr as [p [[->| ->] ->]]; auto. }
+  rewrite Ht in A. exists i. split; [exact B|].
+  assert (i_rid i = Some x) as Hi.
+  { unfold built_inst in B. rewrite Hrid in B.
+    destruct (call_parts d e) as [[rt ops]|]; [|discriminate]. inversion B; subst. reflexivity. }
+  split; [exact Hi|]. split; [exact R|]. split; [exact A|].
+  intros v Ev. specialize (V v Ev). congruence.
+Qed.
+
+(** the public-call forms *)
+Corollary gen_call_fresh_id k_fc ds s m e d s' o :
+  find_desc ds m = Some d -> d_sink d <> SDedupType -> fresh_request d e ->
+  bstep k_fc ds s (CGen m e) = Some (s', o) -> ~ failed o ->
+  exists i, built_inst d s e = Some i /\ i_rid i = Some (bs_next s) /\
+            received d e s s' i /\ alloc s s' = [bs_next s] /\
+            (forall v, o = BVal v -> v = bs_next s).
+Proof.
+  intros F Hs Hr H Hf. cbn [bstep] in H. rewrite F in H.
+  apply (descriptor_fresh_id _ _ _ _ _ Hs Hr H Hf).
+Qed.
+
+Corollary gen_call_explicit_id k_fc ds s m e d s' o x :
+  find_desc ds m = Some d -> d_sink d <> SDedupType -> explicit_request d e x ->
+  bstep k_fc ds s (CGen m e) = Some (s', o) -> ~ failed o ->
+  exists i, built_inst d s e = Some i /\ i_rid i = Some x /\
+            received d e s s' i /\ alloc s s' = [] /\
+            (forall v, o = BVal v -> v = x).
+Proof.
+  intros F Hs Hr H Hf. cbn [bstep] in H. rewrite F in H.
+  apply (descriptor_explicit_id _ _ _ _ _ _ Hs Hr H Hf).
+Qed.
+
+(** ------------------------------------------------------------------ *)
+(** * The sinks that DO push into section 10 (completing the characterisation) *)
+
+Theorem not_avoiding10_pushes d s e s' o :
+  d_sink d <> SDedupType -> sink_avoids10 d s = false ->
+  run_descriptor d s e = Some (s', o) -> ~ failed o ->
+  exists i, built_inst d s e = Some i /\ types s' = types s ++ [i].
+Proof.
+  intros Hs Ha H Hf. destruct (descriptor_call_spec _ _ _ _ _ Hs H Hf) as [i [B [R _]]].
+  exists i. split; [exact B|]. unfold received in R. unfold sink_avoids10 in Ha.
+  destruct (d_sink d) as [sec| |pt|pt| | |]; try discriminate; try contradiction.
+  - apply negb_false_iff, N.eqb_eq in Ha. subst sec. exact R.
+  - destruct (bs_fn s); [destruct (bs_blk s); [discriminate|exact R]|exact R].
+  - destruct (bs_blk s); [discriminate|exact R].
+Qed.
+
+(** ------------------------------------------------------------------ *)
+(** * Concrete witnesses: why the restrictions in I6 are needed *)
+
+Module Witness.
+Open Scope string_scope.
+
+(** a type method in the style of the generated ones: type_xxx(result_id: Option<Word>, w) *)
+Definition dT : descriptor :=
+  {| d_name := "type_int"; d_params := [("result_id", POptW); ("w", PW)]; d_opcode := 21;
+     d_rt := RtNone; d_rid := RidOptParam "result_id"; d_slots := [DOne KLit32 "w"];
+     d_sink := SDedupType; d_ret := RetId |}.
+
+Definition explicit_call (id w : N) : bcall := CGen "type_int" [("result_id", AOptW (Some id)); ("w", AW w)].
+Definition implicit_call (w : N) : bcall := CGen "type_int" [("result_id", AOptW None); ("w", AW w)].
+
+Definition run2 (s : bstate) (c1 c2 : bcall) : option (bout * bout * bstate) :=
+  match bstep 0 [dT] s c1 with
+  | Some (s1, o1) => match bstep 0 [dT] s1 c2 with
+                     | Some (s2, o2) => Some (o1, o2, s2)
+                     | None => None end
+  | None => None
+  end.
+
+(** (1) explicit ids defeat deduplication: the same declaration twice, with an
+    explicit id each time, yields two type_identical entries *)
+Example explicit_duplicates :
+  option_map (fun r => types (snd r)) (run2 bnew (explicit_call 5 32) (explicit_call 5 32))
+  = Some [mk_inst 21 None (Some 5) [OLit32 32]; mk_inst 21 None (Some 5) [OLit32 32]].
+Proof. vm_compute. reflexivity. Qed.
+
+Example explicit_breaks_types_unique :
+  exists s o1 o2, run2 bnew (explicit_call 5 32) (explicit_call 5 32) = Some (o1, o2, s) /\
+                  ~ types_unique s.
+Proof.
+  eexists _, _, _. split; [vm_compute; reflexivity|].
+  intros [_ U]. specialize (U 0%nat 1%nat _ _ eq_refl eq_refl eq_refl). discriminate.
+Qed.
+
+(** (2) an explicit id is not below [bs_next]; a later implicit request for a
+    DIFFERENT type is handed the same id *)
+Example explicit_then_implicit_share_id :
+  option_map (fun r => fst r) (run2 bnew (explicit_call 1 32) (implicit_call 64))
+  = Some (BVal 1, BVal 1)
+  /\ type_identical (mk_inst 21 None None [OLit32 32]) (mk_inst 21 None None [OLit32 64]) = false.
+Proof. vm_compute. split; reflexivity. Qed.
+
+(** (3) [types_unique] and [ids_below] alone do not give "no shared ids": a
+    loaded module whose two distinct types carry the same id (new_from_module
+    does not check) answers two different implicit requests with that id.
+    This is why [tinv] also contains [rids_distinct] (which holds from [bnew]). *)
+Definition twin_module : module inst :=
+  add_type (add_type empty_module (mk_inst 21 None (Some 1) [OLit32 32])) (mk_inst 21 None (Some 1) [OLit32 64]).
+Definition twin_state : bstate :=
+  {| bs_module := twin_module; bs_header := Some (new_header 2); bs_next := 2; bs_fn := None; bs_blk := None |}.
+
+Example twin_state_is_bfrom : bfrom twin_module (Some (new_header 2)) = Some twin_state.
+Proof. reflexivity. Qed.
+
+Example twin_types_unique : types_unique twin_state /\ ids_below twin_state.
+Proof.
+  split; [split|].
+  - intros t [<-|[<-|[]]]; discriminate.
+  - intros n m a b Ha Hb Hab.
+    destruct n as [|[|n]]; destruct m as [|[|m]]; cbn in Ha, Hb;
+      try reflexivity; try (destruct n; discriminate); try (destruct m; discriminate);
+      inversion Ha; inversion Hb; subst; vm_compute in Hab; discriminate.
+  - intros t id [<-|[<-|[]]] Hid; inversion Hid; subst; vm_compute; reflexivity.
+Qed.
+
+Example twin_shares_id :
+  option_map (fun r => fst r) (run2 twin_state (implicit_call 32) (implicit_call 64))
+  = Some (BVal 1, BVal 1)
+  /\ type_identical (mk_inst 21 None None [OLit32 32]) (mk_inst 21 None None [OLit32 64]) = false.
+Proof. vm_compute. split; reflexivity. Qed.
+
+(** (4) deduplication at work from a fresh builder: same request twice -> same
+    id, nothing added; different request -> next id *)
+Example dedup_from_bnew :
+  option_map (fun r => (fst r, types (snd r), bs_next (snd r)))
+             (run2 bnew (implicit_call 32) (implicit_call 32))
+  = Some ((BVal 1, BVal 1), [mk_inst 21 None (Some 1) [OLit32 32]], 2).
+Proof. vm_compute. reflexivity. Qed.
+
+End Witness.
+
+(** ------------------------------------------------------------------ *)
+Print Assumptions one_id_per_call.
+Print Assumptions ids_consecutive.
+Print Assumptions ids_strictly_increasing.
+Print Assumptions ids_NoDup.
+Print Assumptions ids_below_next.
+Print Assumptions ids_first_bnew.
+Print Assumptions ids_first_bfrom.
+Print Assumptions bound_is_next.
+Print Assumptions bound_exceeds_ids.
+Print Assumptions id_call_returns_allocated.
+Print Assumptions begin_function_fresh.
+Print Assumptions begin_function_explicit.
+Print Assumptions begin_block_fresh.
+Print Assumptions begin_block_no_label_fresh.
+Print Assumptions begin_block_explicit.
+Print Assumptions function_parameter_fresh.
+Print Assumptions descriptor_call_spec.
+Print Assumptions descriptor_fresh_id.
+Print Assumptions descriptor_explicit_id.
+Print Assumptions gen_call_fresh_id.
+Print Assumptions gen_call_explicit_id.
+Print Assumptions not_avoiding10_pushes.
+Print Assumptions dedup_explicit.
+Print Assumptions dedup_explicit_param.
+Print Assumptions dedup_implicit.
+Print Assumptions dedup_find_some.
+Print Assumptions dedup_find_none.
+Print Assumptions dedup_find_none'.
+Print Assumptions type_identical_refl.
+Print Assumptions type_identical_sym.
+Print Assumptions type_identical_trans.
+Print Assumptions implicit_preserves_types_unique.
+Print Assumptions avoids10_preserves_types_unique.
+Print Assumptions safe_preserves_types_unique.
+Print Assumptions safe_preserves_tinv.
+Print Assumptions safe_run_types_unique.
+Print Assumptions no_duplicate_types.
+Print Assumptions tinv_from_bnew.
+Print Assumptions implicit_requests_share_id_only_if_identical.
+Print Assumptions implicit_requests_from_bnew.
+Print Assumptions Witness.explicit_breaks_types_unique.
+Print Assumptions Witness.twin_shares_id.
